@@ -138,6 +138,34 @@ def graph(form, K=1, fix=None):
     return Harness(body, args, describe=describe, bounds={'form': form, 'K': K}, fixed=fix)
 
 
+def alias_same_as_name(K=1):
+    """a non-public table aliased to its own bare name: references, group items and lookup by that alias reach it"""
+    args = [('with_public', 'bool'), ('inline', 'bool')] + hole_args('n', K, Cls('WORD'))
+
+    def body(a):
+        cn = 'c' + text_of(a, 'n', K)
+        doc = ('Table core.items as items {\n  id int\n  ' + cn + ' int\n}\n'
+               'Table other {\n  x int' + (' [ref: > items.id]' if a['inline'] else '') + '\n}\n'
+               + ('' if a['inline'] else 'Ref: other.x > items.' + cn + '\n') + 'TableGroup g {\n  items\n  other\n}\n')
+        try:
+            db = docs.parse(doc)
+        except Exception:
+            return 'well-formed document rejected'
+        reached()
+        t = db.tables[0]
+        if t.alias != 'items' or db['items'] is not t or db['core.items'] is not t:
+            return 'alias equal to the bare table name is lost or does not resolve'
+        r = db.refs[0]
+        want = t.columns[0] if a['inline'] else t.columns[1]
+        if r.col2[0] is not want or r.col1[0] is not db.tables[1].columns[0]:
+            return 'reference addressed by alias is not bound to the aliased table'
+        if db.table_groups[0].items[0] is not t:
+            return 'group item addressed by alias is not the aliased table'
+        return ''
+
+    return Harness(body, args, describe=lambda a: dict(a), bounds={'K': K})
+
+
 def instances(tier):
     out = []
     quick = tier == 'quick'
@@ -149,4 +177,5 @@ def instances(tier):
                 continue
             out.append({'name': f'graph/{form}/f{j}', 'factory': 'graph', 'params': {'form': form, 'K': 1 if quick else 2, 'fix': f},
                         'timeout': T1, 'native_limit': 60})
+    out.append({'name': 'alias_same_as_name', 'factory': 'alias_same_as_name', 'params': {'K': 1 if quick else 2}, 'timeout': T1, 'native_limit': 60})
     return out
